@@ -130,6 +130,12 @@ void ParallelAction::onReset() {
     AssembleAction::onReset();
 }
 
+void ParallelAction::onFinished(bool is_succ, const Reason &why, const Trace &trace) {
+    //! 有可能不是子动作结束产生的finish（如超时），此时要停止还在运行的子动作
+    stopAllActions();
+    AssembleAction::onFinished(is_succ, why, trace);
+}
+
 void ParallelAction::stopAllActions() {
     for (Action *action : children_) {
         action->stop();
